@@ -69,6 +69,7 @@ func runC19(c *Ctx) {
 	c19ValueReceivers(c)
 	c19Pools(c)
 	c19Goroutines(c)
+	c19ReturnedClosures(c)
 	// pooled memory must not stay reachable from results: a recycled buffer is shared state
 	c17UnsafeViews(c)
 	c17Selection(c)
@@ -858,4 +859,90 @@ func discardedErrorRules(c *Ctx, prop string) {
 		}
 	}
 	c.R.Sites += len(keys)
+}
+
+// c19ReturnedClosures: a function value the library hands out (a selector made
+// by SelectFromSlice, a rejection option, the watcher's done function) is used
+// by every connection that shares the configuration it was put into. What it
+// captured is shared state just like a package-level variable: the closure may
+// read it, but a store into a captured variable or into a captured map - a
+// cache filled on first use, a counter - is an unsynchronised write under
+// concurrent handshakes.
+func c19ReturnedClosures(c *Ctx) {
+	const rule = "C19.returned-closures-read-only"
+	c.R.Rule(rule, 4, "function values returned by exported constructors do not write to what they captured")
+	n := 0
+	for _, fn := range c.P.AllModuleFuncs() {
+		if fn.Parent() != nil || fn.Blocks == nil || fn.Object() == nil || !fn.Object().Exported() {
+			continue
+		}
+		returnsFunc := false
+		res := fn.Signature.Results()
+		for i := 0; i < res.Len(); i++ {
+			if _, ok := res.At(i).Type().Underlying().(*types.Signature); ok {
+				returnsFunc = true
+			}
+		}
+		if !returnsFunc {
+			continue
+		}
+		for _, b := range fn.Blocks {
+			for _, in := range b.Instrs {
+				ret, ok := in.(*ssa.Return)
+				if !ok {
+					continue
+				}
+				for _, rv := range ret.Results {
+					if ch, ok := rv.(*ssa.ChangeType); ok {
+						rv = ch.X
+					}
+					mc, ok := rv.(*ssa.MakeClosure)
+					if !ok {
+						continue
+					}
+					body, _ := mc.Fn.(*ssa.Function)
+					if body == nil {
+						continue
+					}
+					n++
+					key := rule + "/" + astFuncName(fn) + "#" + fmt.Sprint(n)
+					bad := ""
+					captured := func(v ssa.Value) bool {
+						for i := 0; i < 6; i++ {
+							switch x := v.(type) {
+							case *ssa.FreeVar:
+								return true
+							case *ssa.UnOp:
+								v = x.X
+							case *ssa.FieldAddr:
+								v = x.X
+							case *ssa.IndexAddr:
+								v = x.X
+							default:
+								return false
+							}
+						}
+						return false
+					}
+					for _, bb := range body.Blocks {
+						for _, bi := range bb.Instrs {
+							switch x := bi.(type) {
+							case *ssa.Store:
+								if captured(x.Addr) {
+									bad = "a captured variable is assigned at " + c.P.Pos(x.Pos())
+								}
+							case *ssa.MapUpdate:
+								if captured(x.Map) {
+									bad = "a captured map is filled at " + c.P.Pos(x.Pos())
+								}
+							}
+						}
+					}
+					c.R.Check(bad == "", rule, key, c.P.Pos(mc.Pos()), "reads what it captured, writes nothing of it",
+						"the function value returned by "+astFuncName(fn)+" writes to state it captured ("+bad+"): the value is shared by every connection that uses the configuration it sits in, so concurrent handshakes race on it")
+				}
+			}
+		}
+	}
+	c.R.Sites += n
 }
